@@ -14,7 +14,7 @@ Section Equiv.
 
   Lemma csr_rows_in_range n (A : csr R) : csr_valid n A -> rows_in_range n (csr_rows A).
   Proof.
-    intros HA r Hr cv Hcv. pose proof (csr_nrows_valid n A HA) as Hn.
+    intros HA r Hr cv Hcv. pose proof (csr_nrows_valid n A (csr_valid_weaken n A HA)) as Hn.
     unfold csr_rows in Hr. apply in_map_iff in Hr. destruct Hr as (i & <- & Hi). apply in_seq in Hi.
     destruct HA as (_ & _ & _ & Hrng & _). apply (Hrng i); [lia | assumption].
   Qed.
@@ -33,7 +33,7 @@ Section Equiv.
      matvec o (condense_A (csr_rows A) I) (vsel o y I) = condense_b o (csr_rows A) b x I D).
   Proof.
     intros HA Hb Hx Hy HS. pose proof HS as (NI & ND & BI & BD & P).
-    pose proof (csr_nrows_valid n A HA) as Hn.
+    pose proof (csr_nrows_valid n A (csr_valid_weaken n A HA)) as Hn.
     rewrite (enforce_solution_iff o Rth posf posf_ok n A b x D (r1 o) y HA Hb ND BD).
     assert (Hone : forall d, rmul o (r1 o) (vnth o y d) = vnth o y d) by (intros; ring).
     split.
